@@ -663,8 +663,14 @@ fn run_inst<T: Sc>(line: &Line, idx: usize, pools: &Pools, opts: &Opts, rep: &mu
                         wr = f64::INFINITY;
                     }
                     rep.check("C02", wr <= 1e-5, wr, || det("residuals change when a basis function is rescaled", wr));
+                } else {
+                    rep.violation("C01", det("coefficients or residuals absent although every value of the rescaled model is finite", 0.0));
                 }
-                if let Some(jm) = twin.jacobian() {
+                let jac = twin.jacobian();
+                if jac.is_none() {
+                    rep.violation("C03", det("jacobian absent although every value of the rescaled model and its derivatives is finite", 0.0));
+                }
+                if let Some(jm) = jac {
                     let d2 = pt.d * pt.d;
                     let mut wj = 0.0f64;
                     for k in 0..inst.p {
@@ -823,6 +829,9 @@ fn run_inst<T: Sc>(line: &Line, idx: usize, pools: &Pools, opts: &Opts, rep: &mu
                     pp.set_params(&a);
                     let op = observe(pp.as_ref());
                     let mut worst = 0.0f64;
+                    if om.cm.is_some() != op.cm.is_some() || om.r.is_some() != op.r.is_some() || om.jm.is_some() != op.jm.is_some() {
+                        worst = f64::INFINITY; // present for one column order, absent for the other
+                    }
                     if let (Some(cm), Some(cp)) = (&om.cm, &op.cm) {
                         for s in 0..inst.s {
                             for j in 0..inst.m {
